@@ -59,7 +59,11 @@ func overlayFor(pkgDirs []string) (map[string][]byte, error) {
 					}
 				}
 			}
-			ov[filepath.Join(repoDir, d, "zz_verif_"+filepath.Base(f))] = b
+			ov[filepath.Join(repoDir, targetDir(d), "zz_verif_"+filepath.Base(f))] = b
+		}
+		if d == "root" {
+			// stubs only (substituted for library calls of the tools): no harness vocabulary needed
+			continue
 		}
 		for _, sf := range shared {
 			tmpl, err := os.ReadFile(sf)
